@@ -106,6 +106,55 @@ def L(s):
     return [lib.cps(s)]
 
 
+def gen_input_case(rng):
+    """Input-layer sessions: the user types ahead (op 19: a reader thread gets its line at once, its
+    InputReceivedSignal is queued before the requesting callback goes on), overlapping check-bypassed requests
+    (>= 3 in one callback), and the application's own, REUSED InputHandler objects (ops 20 ask / 21 wait)."""
+    ta = rng.random() < 0.6                      # type-ahead on from the start
+    skip = 1 if rng.random() < 0.8 else 0
+    nh = rng.randrange(1, 4)
+
+    def ask(h=None, s=None):
+        return [20, rng.randrange(nh) if h is None else h, (1 if rng.random() < 0.85 else 0) if s is None else s]
+
+    def wait(h=None):
+        return [21, rng.randrange(nh) if h is None else h]
+
+    def burst():
+        k = rng.random()
+        if k < 0.25:                             # three or more overlapping requests, then wait for one of them
+            hs = [rng.randrange(nh) for _ in range(rng.randrange(3, 5))]
+            return [ask(h, 1) for h in hs] + [wait(rng.choice(hs))] + ([wait(rng.choice(hs))] if rng.random() < 0.5 else [])
+        if k < 0.45:                             # the same object asks, is answered, asks again and is superseded
+            h, g = rng.sample(range(3), 2)
+            return [ask(h, 1), wait(h), ask(h, 1), ask(g, 1), wait(h), wait(g)]
+        if k < 0.6:
+            return [ask(), [11], wait()]
+        if k < 0.7:
+            return [[11], [11]]
+        if k < 0.8:
+            return [ask(), [6], [7]]
+        if k < 0.9:
+            return [[19, rng.randrange(2)], ask(), ask(), wait()]
+        return [wait(), ask(), wait(), wait()]
+    s0 = spec(inputs=[("1", burst(), rng.choice([[0], [1]])), ("2", burst(), [1]), ("3", [[0, 1, 0]] + (burst() if rng.random() < 0.3 else []), [0])],
+              refresh=[[15, rng.choice([1, 2]), burst(), []]] if rng.random() < 0.3 else [],
+              show=[[15, rng.choice([1, 2]), [[6]] if rng.random() < 0.5 else burst(), []]] if rng.random() < 0.3 else [],
+              skip=skip, pages=rng.choice([0, 0, 0, 1]))
+    s1 = spec(inputs=[("1", burst(), [2]), ("2", [], [2])], skip=1 if rng.random() < 0.6 else 0,
+              show=[[15, 1, [[11]], []]] if rng.random() < 0.2 else [])
+    typed = [L(rng.choice(["1", "2", "3", "1", "2", "a", "", "c", "r"])) for _ in range(rng.randrange(4, 18))]
+    if rng.random() < 0.2:
+        typed.insert(rng.randrange(len(typed)), [])
+    first = [0] + ([[19, 1]] if ta else []) + [[3, 0, 0]]
+    if rng.random() < 0.25:
+        first += burst()                         # requests issued before run()
+    acts = [first, [1]]
+    if rng.random() < 0.15:
+        acts.append([0] + burst())
+    return [3000, [s0, s1], typed, [], 0, acts]
+
+
 def gen_focus_case(rng, prop):
     """Property-specific families of sessions."""
     if prop in ("C08", "C04") and rng.random() < 0.15:
@@ -135,6 +184,8 @@ def gen_focus_case(rng, prop):
                 typed.append(L(rng.choice(["1", "2", "3"])))
         quit_ = [2] if rng.random() < 0.6 else []
         return [3000, [s0, s1, qd], typed, quit_, 0, [[0, [3, 0, 0]], [1]]]
+    if prop == "C18" and rng.random() < 0.45:
+        return gen_input_case(rng)
     if prop == "C18":
         # overlapping requests: a callback asks for input while the screen's own prompt is outstanding
         skip = 1 if rng.random() < 0.7 else 0
